@@ -586,8 +586,11 @@ impl<'a> ExpandedSelection<'a> {
                 .collect();
 
             // If we only have an `on` field, turn the struct into the enum
-            // of the variants.
-            if fields.peek().is_none() {
+            // of the variants. Without variants (a concrete object with no
+            // selected field, e.g. `{ __typename }`) there is nothing to
+            // dispatch on: keep the (empty) struct, an enum without variants
+            // would reject every payload.
+            if fields.peek().is_none() && !on_variants.is_empty() {
                 let item = quote! {
                     #response_derives
                     #[serde(crate = #serde_path)]
